@@ -43,3 +43,150 @@ Theorem C18_stringify_unquoted_no_unescaped : forall a,
   no_unescaped (stringify_arg false a) = true.
 Proof. exact stringify_unquoted_no_unescaped. Qed.
 Print Assumptions C18_stringify_unquoted_no_unescaped.
+
+(* (3) deps_gate.  Every resource body that ends up in the injected script (the scriptlet of a
+   function-style injection and every transitive dependency, also those collected before an
+   injection was finally refused) is a stored resource whose required permission bits were all
+   granted to the mask of one of the injections that pulled it in. *)
+Theorem C18_deps_gate : forall st injections r,
+  In r (fst (gsr_fold st injections [] [])) ->
+  exists s mask, In (s, mask) injections /\ In r (st_res st) /\
+                 c18_is_injectable_by (r_perm r) mask = true.
+Proof. exact deps_gate. Qed.
+Print Assumptions C18_deps_gate.
+
+(* the same for one call: whatever get_scriptlet_resource adds to required_deps passed the gate of
+   this rule's mask, whether it returns Ok or Err *)
+Theorem C18_scriptlet_deps_gate : forall st text mask deps r,
+  In r (fst (get_scriptlet_resource st text mask deps)) ->
+  In r deps \/ (In r (st_res st) /\ c18_is_injectable_by (r_perm r) mask = true).
+Proof. exact scriptlet_deps_gate. Qed.
+Print Assumptions C18_scriptlet_deps_gate.
+
+(* a successful invocation: the named scriptlet (".js" added, aliases resolved) exists, passed the
+   gate, has an injectable kind, and the emitted text is fname("arg", ..) with the stringified
+   arguments of the rule, or the template with the unquoted forms patched in *)
+Theorem C18_invocation_gate : forall st text mask deps deps' inv,
+  get_scriptlet_resource st text mask deps = (deps', SOk inv) ->
+  exists name args r0,
+    parse_scriptlet_args text = Some (name :: args) /\
+    get_internal_resource st (with_js_extension name) = Some r0 /\
+    c18_is_injectable_by (r_perm r0) mask = true /\
+    c18_supports_scriptlet_injection (r_kind r0) = true /\
+    ((exists fname, r_fname r0 = Some fname /\ inv = invocation fname args /\
+                    has_name (r_name r0) deps' = true) \/
+     (exists template, r_decoded r0 = Text template /\ r_fname r0 = None /\
+                       inv = patch_template_scriptlet template (map (stringify_arg false) args))).
+Proof. exact scriptlet_ok_inv. Qed.
+Print Assumptions C18_invocation_gate.
+
+(* (4) deps_terminate.  Fuel = number of stored resources + 1 is never exhausted, for every store
+   (cycles, aliases, missing names) and every visited list: each descent adds a resource whose
+   canonical name was not visited; the visited names stay distinct. *)
+Theorem C18_deps_terminate : forall st n prev mask,
+  snd (recursive_dependencies (S (length (st_res st))) st n prev mask) <> Some OutOfFuel.
+Proof. exact deps_terminate. Qed.
+Print Assumptions C18_deps_terminate.
+
+Theorem C18_scriptlet_never_out_of_fuel : forall st text mask deps,
+  snd (get_scriptlet_resource st text mask deps) <> SErr OutOfFuel.
+Proof. exact scriptlet_never_out_of_fuel. Qed.
+Print Assumptions C18_scriptlet_never_out_of_fuel.
+
+Theorem C18_visited_grows_distinct : forall fuel st n prev mask,
+  incl prev (fst (recursive_dependencies fuel st n prev mask)) /\
+  (NoDup (map r_name prev) ->
+   NoDup (map r_name (fst (recursive_dependencies fuel st n prev mask)))).
+Proof. exact visited_grows_distinct. Qed.
+Print Assumptions C18_visited_grows_distinct.
+
+(* (5) redirect_refuses_permissioned: a redirect is served only for a resource that requires no
+   permission (and whose kind supports redirects). *)
+Theorem C18_redirect_refuses_permissioned : forall st ident r,
+  get_internal_resource st ident = Some r -> r_perm r <> 0 -> get_redirect_resource st ident = None.
+Proof. exact redirect_refuses_permissioned. Qed.
+Print Assumptions C18_redirect_refuses_permissioned.
+
+Theorem C18_redirect_only_unpermissioned : forall st ident out,
+  get_redirect_resource st ident = Some out ->
+  exists r, get_internal_resource st ident = Some r /\ r_perm r = 0 /\
+            c18_supports_redirect (r_kind r) = true.
+Proof. exact redirect_some. Qed.
+Print Assumptions C18_redirect_only_unpermissioned.
+
+(* (6) the per-host merge, completely characterised: the text x is injected iff some applicable
+   rule asks for exactly x, no applicable exception has exactly the text x, and no blanket
+   exception applies; its mask is the union of the masks of the rules with text x; each text is
+   injected once. *)
+Theorem C18_host_injections_spec : forall injs excs x m,
+  In (x, m) (host_injections injs excs) <->
+  requested injs x /\ ~ In x excs /\ ~ blanket excs /\ m = union_mask injs x.
+Proof. exact host_injections_spec. Qed.
+Print Assumptions C18_host_injections_spec.
+
+Theorem C18_exception_exact : forall injs excs x,
+  In x (map fst (host_injections injs excs)) <-> requested injs x /\ ~ In x excs /\ ~ blanket excs.
+Proof. exact exception_exact. Qed.
+Print Assumptions C18_exception_exact.
+
+Theorem C18_blanket_exception_all : forall injs excs,
+  In [] excs -> host_injections injs excs = [].
+Proof. exact blanket_exception_all. Qed.
+Print Assumptions C18_blanket_exception_all.
+
+Theorem C18_host_injections_once : forall injs excs, NoDup (map fst (host_injections injs excs)).
+Proof. exact host_injections_nodup. Qed.
+Print Assumptions C18_host_injections_once.
+
+(* The gate at host level, in whatever order the HashMap is iterated: per MERGED mask (F18). *)
+Theorem C18_host_deps_gate_merged : forall st injs excs order r,
+  Permutation.Permutation order (host_injections injs excs) ->
+  In r (fst (gsr_fold st order [] [])) ->
+  exists x, requested injs x /\ ~ In x excs /\ ~ blanket excs /\ In r (st_res st) /\
+            c18_is_injectable_by (r_perm r) (union_mask injs x) = true.
+Proof. exact host_deps_gate. Qed.
+Print Assumptions C18_host_deps_gate_merged.
+
+(* The property as stated (the list that wrote the rule was granted the bits) holds outside the
+   known-finding class F18 = the same argument text requested by lists with different masks. *)
+Theorem C18_host_deps_gate : forall st injs excs order r,
+  mixed_masks injs = false ->
+  Permutation.Permutation order (host_injections injs excs) ->
+  In r (fst (gsr_fold st order [] [])) ->
+  exists x m, In (x, m) injs /\ ~ In x excs /\ ~ blanket excs /\ In r (st_res st) /\
+              c18_is_injectable_by (r_perm r) m = true.
+Proof. exact host_deps_gate_single. Qed.
+Print Assumptions C18_host_deps_gate.
+
+(* F18 is real: masks 01 and 10, resource requires 11, injected under the union. *)
+Theorem C18_permission_union_refuted :
+  exists st injs r,
+    mixed_masks injs = true /\
+    In r (fst (gsr_fold st (host_injections injs []) [] [])) /\
+    (forall x m, In (x, m) injs -> c18_is_injectable_by (r_perm r) m = false) /\
+    c18_is_injectable_by (r_perm r) (union_mask injs (bs "p")) = true.
+Proof. exact permission_union_refuted. Qed.
+Print Assumptions C18_permission_union_refuted.
+
+(* F25 (found here): the gate is applied to each resource when it is first collected, not to the
+   dependency closure of each invocation.  A rule whose list lacks a bit required by a transitive
+   dependency is refused when evaluated alone, and accepted after another rule has collected the
+   intermediate dependency; in the other order the privileged rule is invoked without its
+   dependency.  (Not proved: "every invocation's whole dependency closure passed the gate of its
+   own mask" — it is false, these are the witnesses.) *)
+Theorem C18_visited_dependency_skips_gate_refuted :
+  exists st,
+    snd (get_scriptlet_resource st (bs "b") 0 []) = SErr InsufficientPermissions /\
+    exists inv, snd (get_scriptlet_resource st (bs "b") 0
+                       (fst (get_scriptlet_resource st (bs "a") 1 []))) = SOk inv.
+Proof. exact visited_dependency_skips_gate_refuted. Qed.
+Print Assumptions C18_visited_dependency_skips_gate_refuted.
+
+Theorem C18_injection_order_matters_refuted :
+  exists st i1 i2,
+    has_name (bs "y.js") (fst (gsr_fold st [i2; i1] [] [])) = false /\
+    has_name (bs "y.js") (fst (gsr_fold st [i1; i2] [] [])) = true /\
+    snd (gsr_fold st [i2; i1] [] []) <> [] /\
+    get_scriptlet_resources st [i1; i2] <> get_scriptlet_resources st [i2; i1].
+Proof. exact injection_order_matters_refuted. Qed.
+Print Assumptions C18_injection_order_matters_refuted.
